@@ -204,12 +204,14 @@ def interesting_days(rng, cal, count):
     for k in range(0, 6):
         days.add(t0 + k)
         days.add(t1 - k)
-    for a, b in long_runs(hol):     # a year before the first day after a long run: same month number, other year
-        for k in range(0, 10):
-            days.update([b + 1 - 365 - 3 * k, b + 1 - 366 + k])
+    runs = long_runs(hol)
+    for a, b in runs:     # a year before the first day after a long run: same month number, other year
+        for k in range(0, 5):
+            days.update([b + 1 - 365 - 5 * k, b + 1 - 366 + 2 * k])
         days.update([a - 1, a, a + 1, b - 1, b, b + 1, (a + b) // 2])
     must = set(d for d in days if t0 <= d <= t1)     # always kept
-    hs = list(hol)
+    # (the implementation walks a long run day by day on every call: its interior is visited through `must` only)
+    hs = [h for h in hol if not any(a < h < b for a, b in runs)]
     rng.shuffle(hs)
     for h in hs[:count // 4]:
         days.update([h - 1, h, h + 1])
@@ -224,12 +226,17 @@ def interesting_days(rng, cal, count):
     return sorted(list(must) + days[:max(0, count - len(must))])
 
 
-KINDS = {3: 'longrun', 13: 'longrun', 7: 'outside', 17: 'outside'}    # calendar index mod 20 -> class (else 'std')
+KINDS = {3: 'longrun', 7: 'outside', 17: 'outside'}    # calendar index mod 20 -> class (else 'std')
 
 
-def new_line(cal):
+def new_line(cal, scalar_weekend=False):
     t0, t1, weekend, hol, adj = cal
-    return '(cal new %d %d %s %s %s)' % (t0, t1, ilist(weekend), ilist(hol), adj)
+    we = '%d' % weekend[0] if scalar_weekend and len(weekend) == 1 else ilist(weekend)
+    return '(cal new %d %d %s %s %s)' % (t0, t1, we, ilist(hol), adj)
+
+
+# spellings of a convention: the code takes `adj.lower()` and looks at its first letter (_drange.py:542)
+SPELLED = ['F', 'P', 'M', 'following', 'Following', 'prev', 'Previous', 'modified', 'MF', 'mod_following', 'p', 'f']
 
 
 def generate(rng, tier):
@@ -248,12 +255,13 @@ def generate(rng, tier):
                                             '0' if not hol else '<5%' if dens < 0.05 else '<15%' if dens < 0.15 else '>=15%')
         if kind != 'std':
             tag = 'cal %s we=%s adj=%s' % (kind, ''.join(map(str, weekend)) or '-', adj)
-        lines = [new_line(cal)]
+        lines = [new_line(cal, scalar_weekend=(ci % 2 == 0))]
         for t in interesting_days(rng, cal, ndays):
             lines.append('(cal isb %d)' % t)
             lines.append('(cal ishol %d)' % t)
             for a in 'fpmd':
                 lines.append('(cal adjust %s %d)' % (a, t))
+            lines.append('(cal adjust %s %d)' % (rng.choice(SPELLED), t))
             ns = [1, -1, 2, -2] + [rng.randrange(-40, 41) for _ in range(3)]
             a0 = nv.adjust(t)
             if a0 is not None and nv.isb(a0):
@@ -298,31 +306,53 @@ def generate(rng, tier):
                 lines.append('(cal add d %d %d)' % (t, n))
         yield dict(tag='exhaustive we=%s adj=%s' % (''.join(map(str, weekend)) or '-', adj), lines=lines)
     # registry histories
-    for _ in range(30 if tier == 'quick' else 600):
-        yield registry_case(rng)
+    for i in range(30 if tier == 'quick' else 600):
+        yield registry_case(rng, full=(i % 3 == 0))
 
 
-def registry_case(rng):
+def registry_case(rng, full=False):
+    """a history of calendar(key, ...) calls.  Every registration is followed by look-ups that need the lazily built
+    table of THAT calendar object (add with |n| = 2, bdays, drange) next to the holidays just registered, not only by
+    is_bday: a table kept per key across re-registrations would answer from the previous holidays.  The default range
+    1900-2300 costs 0.5 s per table in the implementation, so full-range calendars get these ops only when `full`
+    (every third history), once."""
     keys = ['41', '42', '43']    # hex of 'A','B','C'
     lines = []
     t0 = D(rng.randrange(1990, 2030), 1, 1).toordinal()
+    full_range_tables = 0
     for _ in range(rng.randrange(3, 10)):
         k = rng.choice(keys)
         r = rng.random()
+        hs, bounded = [], False
         if r < 0.35:
             lines.append('(cal reg %s N N N N)' % k)
         else:
-            hol = 'N' if rng.random() < 0.15 else ilist(sorted(set(t0 + rng.randrange(0, 700) for _ in range(rng.choice([0, 0, 1, 3, 8])))))
+            hs = sorted(set(t0 + rng.randrange(0, 700) for _ in range(rng.choice([0, 0, 1, 3, 8]))))
+            if hs and rng.random() < 0.5:     # a short run, so that the neighbours differ between registrations
+                hs = sorted(set(hs + [hs[0] + 1, hs[0] + 2]))
+            hol = 'N' if rng.random() < 0.15 else ilist(hs)
             we = 'N' if rng.random() < 0.6 else ilist(rng.choice(WEEKENDS[:3]))
             a = 'N' if rng.random() < 0.2 else str(t0)
             b = 'N' if rng.random() < 0.2 else str(t0 + 730)
-            if rng.random() < 0.5:     # the usual call: calendar(key, holidays) and nothing else
+            if rng.random() < 0.4:     # the usual call: calendar(key, holidays) and nothing else
                 we = a = b = 'N'
             if hol == 'N' and we == 'N' and a == 'N' and b == 'N':
                 hol = '(L)'
+            bounded = a != 'N' and b != 'N'
             lines.append('(cal reg %s %s %s %s %s)' % (k, hol, we, a, b))
         for _ in range(rng.choice([0, 1, 2])):
             lines.append('(cal isb %d)' % (t0 + rng.randrange(0, 700)))
+        table = bounded or (full and full_range_tables < 1 and rng.random() < 0.4)
+        if table:
+            full_range_tables += 0 if bounded else 1
+            near = [h + d for h in (hs or [t0 + rng.randrange(5, 690)]) for d in (-2, -1, 0, 1)]
+            for t in rng.sample(near, min(len(near), 3)):
+                t = min(max(t, t0 + 3), t0 + 720)
+                lines.append('(cal add d %d %d)' % (t, rng.choice([2, -2, 3])))
+                lines.append('(cal add d %d %d)' % (t, rng.choice([1, -1])))
+            t = min(max(rng.choice(near), t0 + 3), t0 + 700)
+            lines.append('(cal bdays d %d %d)' % (t - 3, t + rng.randrange(0, 15)))
+            lines.append('(cal drange %d %d 1)' % (t - 3, t + rng.randrange(0, 9)))
     return dict(tag='registry', lines=lines)
 
 
@@ -356,7 +386,7 @@ def run_line(state, sx):
         return 'ok (T I:%d I:%d I:%d I:%d)' % (t.year, t.month, t.day, t.weekday())
     if op == 'new':
         t0, t1 = int(args[0]), int(args[1])
-        weekend = [int(x) for x in args[2][1:]]
+        weekend = [int(x) for x in args[2][1:]] if isinstance(args[2], list) else int(args[2])   # a scalar: weekend = 6
         hol = [fo(int(x)) for x in args[3][1:]]
         state['cal'] = Calendar(None, holidays=hol, weekend=weekend, t0=fo(t0), t1=fo(t1), adj=args[4])
         return 'ok N'
@@ -365,6 +395,8 @@ def run_line(state, sx):
         state['cal'] = c
         return 'ok (T %s %s I:%d I:%d)' % (ilist_I(sorted(to(h) for h in c.holidays)), ilist_I(list(c.weekend)), to(c.t0), to(c.t1))
     c = state['cal']
+    if c is None:
+        return 'bad-op'       # no calendar yet (only in a shrunk history): the model says the same
     if op == 'isb':
         return 'ok ' + proto.enc(bool(c.is_bday(fo(int(args[0])))))
     if op == 'ishol':
@@ -403,7 +435,10 @@ def compare(case, i, line, ir, mr):
     if proto.same_reply(ir, mr):
         return None
     if line.startswith('(cal ymd'):
-        return ('divergence', 'Gregorian arithmetic of the model differs from datetime: %s vs %s' % (ir, mr))
+        # not a mere divergence: every theorem about `adjust 'm'` (month of a year) and every day number <-> date link of
+        # this property reaches the code through Civil = datetime, an obligation of the proof
+        return ('obligation "PygModel/Civil.lean agrees with datetime" fails: Gregorian arithmetic of the model differs '
+                'from datetime: %s vs %s' % (ir, mr))
     return 'implementation %s, model %s' % (ir[:300], mr[:300])
 
 
@@ -434,7 +469,7 @@ def _laws(rng, tier, ctx):
     count = 0
     ncal, ndays = (25, 40) if tier == 'quick' else (250, 120)
     for li in range(ncal):
-        cal = rand_calendar(rng, tier, {2: 'longrun', 7: 'longrun', 5: 'outside'}.get(li % 10, 'std'))
+        cal = rand_calendar(rng, tier, {2: 'longrun', 5: 'outside'}.get(li % 10, 'std'))
         t0, t1, weekend, hol, adj = cal
         nv = Naive(*cal)
         c = Calendar(None, holidays=[fo(h) for h in hol], weekend=list(weekend), t0=fo(t0), t1=fo(t1), adj=adj)
@@ -451,6 +486,19 @@ def _laws(rng, tier, ctx):
             except Exception as e:
                 return 'raise ' + type(e).__name__
 
+        # the lazily built table against day-by-day counting (the assumption on dateutil.rrule(byweekday=...)): int2dt is
+        # the increasing list of ALL business days of [t0, t1], dt2int its inverse
+        count += 1
+        tb = call(lambda: c._populate())
+        want = [fo(x) for x in nv.between(t0, t1)]
+        if isinstance(tb, str):
+            yield bad('table', [], '_populate: %s' % tb)
+        else:
+            i2d, d2i = tb['int2dt'], tb['dt2int']
+            if sorted(i2d.keys()) != list(range(len(want))) or [i2d[i] for i in range(len(i2d))] != want:
+                yield bad('table', ['(cal drange %d %d 1)' % (t0, t1)], 'int2dt is not the increasing list of the business days of [t0, t1] (%d entries, counting gives %d)' % (len(i2d), len(want)))
+            elif len(d2i) != len(want) or any(d2i.get(d) != i for i, d in enumerate(want)):
+                yield bad('table', ['(cal drange %d %d 1)' % (t0, t1)], 'dt2int is not the inverse of int2dt')
         for t in interesting_days(rng, cal, ndays):
             T = fo(t)
             count += 1
